@@ -133,8 +133,19 @@ func c08Battery(m *test.Command, fields []c08Field, indexes map[string]bool, use
 					}
 					return ps[a].Key < ps[b].Key
 				})
-				vj, _ := json.Marshal(ps)
-				fmt.Fprintf(&sb, "Q %s %s -> pairs %s\n", index, pq, vj)
+				// ... and so is WHICH of the rows with the smallest reported count are reported at all (n, or a
+				// row cache smaller than the number of rows, cuts through a tie at an arbitrary place): keep the
+				// multiset of counts, and the identities only of rows above the smallest count
+				var counts []uint64
+				var above []pilosa.Pair
+				for _, pr := range ps {
+					counts = append(counts, pr.Count)
+					if pr.Count > ps[len(ps)-1].Count {
+						above = append(above, pr)
+					}
+				}
+				vj, _ := json.Marshal(above)
+				fmt.Fprintf(&sb, "Q %s %s -> pairs counts=%v above-smallest=%s\n", index, pq, counts, vj)
 			default:
 				vj, _ := json.Marshal(v)
 				fmt.Fprintf(&sb, "Q %s %s -> %T %s\n", index, pq, v, vj)
@@ -237,6 +248,11 @@ func TestVerifC08(t *testing.T) {
 	r.Expect("keys:index", "keys:field", "write:set", "write:import", "write:importvalue", "write:importroaring", "write:attrs", "schema:delete-field", "schema:delete-index", "int:excludes-zero", "time:nostd")
 
 	m := test.MustRunCommand()
+	// (the test helper maps only 140000 bytes of the key translation log; a thorough run outgrows that)
+	m.Config.Translation.MapSize = 1 << 28
+	if err := m.Reopen(); err != nil {
+		t.Fatalf("reopen with a larger translation map: %v", err)
+	}
 	defer m.Close()
 	ctx := context.Background()
 	pilosa.SetVerifHook(func(name string, a, b uint64) uint64 {
